@@ -290,3 +290,65 @@ func zzC01_bmff_mdat() {
 	}
 	zzReached("end")
 }
+
+// R4 (fast): meta -> iinf -> one infe entry whose size field takes every value 0..41 (and the large classes), version
+// 0/2/3, item type mime / Exif / other, arbitrary id, protection index and byte 20; the content-type bytes are concrete.
+func zzC01_bmff_infe2_N() int { return 3 }
+func zzC01_bmff_infe2() {
+	const N = 24 + 12 + 14 + 26 + 8
+	z := &zzBuf{b: make([]byte, N)}
+	z.str(0, "\x00\x00\x00\x18ftypavif\x00\x00\x00\x00avifmif1")
+	z.box(24, 12+14+26, "meta")
+	z.box(36, 14+26, "iinf")
+	z.b[36+13] = 1
+	z.str(50+4, "infe")
+	sz := zzU32("sz")
+	zzAssume(sz <= 41 || sz == 0x7fffffff || sz == 0x80000000 || sz == 0xffffffff)
+	z.put32(50, uint32(zzConc(uint64(sz), 48)))
+	v := zzU8("ver")
+	zzAssume(v == 0 || v == 2 || v == 3)
+	z.b[50+8] = byte(zzConc(uint64(v), 3))
+	z.sym(50+9, "fl", 3)
+	z.sym(50+12, "ids", 4)
+	z.str(50+16, []string{"mime", "Exif", "zzzz"}[zzPart()])
+	z.sym(50+20, "nul", 1)
+	z.str(50+21, "a/b\x00\x00")
+	z.box(N-8, 8, "free")
+	for mode := 0; mode < 2; mode++ {
+		_ = zzBmffRun(z.b, 2, mode, false)
+	}
+	zzReached("end")
+}
+
+// payload route (fast): the box tree is well-formed (concrete sizes), the 40 payload bytes of one leaf box are arbitrary:
+// children of meta with a flat payload (hdlr, pitm, idat, unknown: parts 0..3; iref, iprp, uuid and iinf payloads do not
+// finish and stay with the size-class harnesses) and every child type of the CR3 uuid (parts 4..10)
+func zzC01_bmff_pay_N() int { return 11 }
+func zzC01_bmff_pay() {
+	p := zzPart()
+	const N = 24 + 8 + 24 + 8 + 40 + 8
+	z := &zzBuf{b: make([]byte, N)}
+	if p < 4 {
+		typ := []string{"hdlr", "pitm", "idat", "zzzz"}[p]
+		z.str(0, "\x00\x00\x00\x18ftypavif\x00\x00\x00\x00avifmif1")
+		z.box(24, 12+8+40, "meta")
+		z.sym(32, "fl", 4)
+		z.box(36, 8+40, typ)
+		z.sym(44, "p", 40)
+		z.box(36+48, 8, "free")
+		z.box(36+56, N-36-56, "free")
+	} else {
+		typ := []string{"CNCV", "CTBO", "CMT1", "CMT2", "CMT3", "CMT4", "zzzz"}[p-4]
+		z.str(0, zzFtyp)
+		z.box(24, 8+24+8+40, "moov")
+		z.box(32, 24+8+40, "uuid")
+		z.str(40, zzUUIDs[0])
+		z.box(56, 8+40, typ)
+		z.sym(64, "p", 40)
+		z.box(104, 8, "free")
+	}
+	for mode := 0; mode < 2; mode++ {
+		_ = zzBmffRun(z.b, 2, mode, false)
+	}
+	zzReached("end")
+}
